@@ -156,17 +156,21 @@ def setAt (l : List Int) (i : Nat) (v : Int) : List Int :=
 /-- identifier at index `i` (counted from the bottom) of a window of `c` entries on top of the live list -/
 def windowId (s : Ids) (c i : Nat) : Option Id := s.live[c - 1 - i]?
 
-def deactivate (s : Ids) (lOff c : Nat) : Ids :=
-  (List.range c).foldl (fun s i =>
-    match windowId s c i with
-    | none => { s with bad := true }
-    | some id => { s with rt := setAt s.rt (lOff + i) (s.lnum id), lnum := upd s.lnum id (-1) }) s
+def deactStep (lOff c : Nat) (s : Ids) (i : Nat) : Ids :=
+  match windowId s c i with
+  | none => { s with bad := true }
+  | some id => { s with rt := setAt s.rt (lOff + i) (s.lnum id), lnum := upd s.lnum id (-1) }
 
-def reactivate (s : Ids) (lOff c : Nat) : Ids :=
-  (List.range c).foldl (fun s i =>
-    match windowId s c i with
-    | none => { s with bad := true }
-    | some id => { s with lnum := upd s.lnum id (s.rt.getD (lOff + i) 0) }) s
+/-- deactivate_current_locals: `runtime_locals_ptr[i] = local_num; local_num = -1` for the current window -/
+def deactivate (s : Ids) (lOff c : Nat) : Ids := (List.range c).foldl (deactStep lOff c) s
+
+def reactStep (lOff c : Nat) (s : Ids) (i : Nat) : Ids :=
+  match windowId s c i with
+  | none => { s with bad := true }
+  | some id => { s with lnum := upd s.lnum id (s.rt.getD (lOff + i) 0) }
+
+/-- reactivate_current_locals (repaired: no extra sem_value reference) -/
+def reactivate (s : Ids) (lOff c : Nat) : Ids := (List.range c).foldl (reactStep lOff c) s
 
 /-- identifier side of one event; `l` is the locals machine BEFORE the event, `l'` after it -/
 def stepIds (l l' : Loc) (s : Ids) (e : Ev) : Ids × List Out :=
